@@ -247,7 +247,9 @@ pub fn check_transition<R: RefTarget>(
             return false;
         }
         if !nominal.saw_nan && nominal.alpha.is_finite() {
-            let ta = 50.0 * sens_alpha + 64.0 * beps.max(teps) * (nominal.n_alpha as f64) * (1.0 + (t.joint.abs())) + 1e-12;
+            // rounding accumulates along the trajectory: the leaves of the last doubling are up to
+            // `leaves` steps away from the start
+            let ta = 50.0 * sens_alpha + 256.0 * beps.max(teps) * (nominal.n_alpha as f64) * (1.0 + t.joint.abs()) * (1.0 + (nominal.leaves as f64).log2()) + 1e-12;
             rep.max("alpha_error_over_tol", (t.alpha - nominal.alpha).abs() / ta);
             if (t.alpha - nominal.alpha).abs() > ta {
                 rep.violation(&format!("{sig} acceptance-statistic-is-not-the-sum-of-min(1,exp(dH))-over-the-last-doubling"), mon, case, detail("alpha"));
@@ -287,7 +289,7 @@ pub fn check_transition<R: RefTarget>(
     if found {
         rep.held();
         true
-    } else if unstable || orb.len() > 512 {
+    } else if unstable || orb.len() > (if beps > 1e-10 { 64 } else { 512 }) {
         rep.inconclusive("orbit unstable or long: membership not decidable at the fallback tolerance");
         true
     } else {
@@ -325,7 +327,12 @@ where
         let _ = chain.run(n_collect, n_discard);
         if forced {
             let k = if ctx.thorough { 12 } else { 6 };
-            for _ in 0..k {
+            for ki in 0..k {
+                // the public field `position` may be reassigned between transitions (restart elsewhere)
+                if ki == k / 2 && g.chance(0.5) {
+                    let newpos: Vec<f64> = (0..d).map(|_| g.normal() * 2.0 * scale).collect();
+                    chain.position = vt1::<B>(&newpos);
+                }
                 let e = match g.below(6) {
                     0 => g.log_uniform(2.0, 50.0) * scale,   // diverges or U-turns immediately
                     1 => g.log_uniform(5e-3, 5e-2) * scale,  // deep trees
@@ -362,9 +369,10 @@ where
             return;
         }
     }
-    // continuity: each transition starts where the previous one ended
+    // continuity: each transition starts where the previous one ended (natural runs only: in
+    // forced mode the harness may have reassigned the public position field)
     for w in traces.windows(2) {
-        if !bits_eq(&w[0].next, &w[1].position) {
+        if !forced && !bits_eq(&w[0].next, &w[1].position) {
             rep.violation("NUTSChain::step next-transition-does-not-start-at-the-previous-result", mon, case, json!({"cfg": cfg}));
             return;
         }
@@ -372,6 +380,53 @@ where
     if let Some(t) = traces.first() {
         rep.sample(json!({"cfg": cfg, "first_transition": {"epsilon": t.epsilon, "depth": t.depth, "n": t.n, "alpha": fj(t.alpha), "n_alpha": t.n_alpha,
             "directions": t.dirs.iter().map(|d| d.1).collect::<Vec<_>>(), "next": fjv(&t.next)}}));
+    }
+}
+
+/// A Gaussian centred far from the origin: the chain is started next to its mode and traced.
+fn far_trace_case<T, B>(ctx: &Ctx, rep: &mut Report, case: u64, g: &mut Sm64, target: DiagGauss, bname: &str, beps: f64)
+where
+    T: Scalar,
+    B: AutodiffBackend,
+    StandardNormal: Distribution<T>,
+    StandardUniform: Distribution<T>,
+    Exp1: Distribution<T>,
+{
+    let mon = "trace";
+    let d = target.dim();
+    let teps = if T::NAME == "f32" { f32::EPSILON as f64 } else { f64::EPSILON };
+    if T::NAME == "f32" {
+        return; // an f32 start cannot resolve the offset
+    }
+    let seed = g.next_u64();
+    let init: Vec<T> = (0..d).map(|k| T::of(target.mean[k] + g.normal())).collect();
+    let n = if ctx.thorough { 30 } else { 12 };
+    let cfg = json!({"target": target.name(), "mean_offset": target.mean[0], "T": T::NAME, "backend": bname, "dim": d, "seed": seed, "mode": "far from origin"});
+    rep.distinct(("trace-far", T::NAME, bname.to_string(), d, case));
+    rep.count("chains_far_from_origin");
+    reset_budget(1 << 15);
+    hook::enable();
+    let r = guard(|| {
+        let mut chain = NUTSChain::<T, B, DiagGauss>::new(target.clone(), init.clone(), T::of(0.8)).set_seed(seed);
+        let _ = chain.run(n, 5);
+    });
+    let events = hook::take();
+    hook::disable();
+    reset_budget(u64::MAX);
+    if let Err(m) = r {
+        if m.contains(BUDGET_MSG) {
+            rep.violation("NUTSChain::step runaway on a well-conditioned Gaussian far from the origin: 2^15 target evaluations in one run", mon, case, json!({"cfg": cfg}));
+        } else {
+            rep.violation("NUTSChain::step panic", mon, case, json!({"cfg": cfg, "panic": m}));
+        }
+        return;
+    }
+    let traces = parse(&events);
+    rep.evals(traces.len() as u64);
+    for t in &traces {
+        if !check_transition(rep, mon, case, g, &target, t, beps, teps, &cfg) {
+            return;
+        }
     }
 }
 
@@ -505,7 +560,7 @@ where
         return fail("selected-proposal-differs (uniform selection between subtrees)", rep);
     }
     if !nominal.saw_nan {
-        let ta = 50.0 * sens_alpha + 64.0 * beps.max(teps) * nominal.n_alpha as f64 * (1.0 + joint0.abs()) + 1e-12;
+        let ta = 50.0 * sens_alpha + 256.0 * beps.max(teps) * nominal.n_alpha as f64 * (1.0 + joint0.abs()) * (1.0 + (nominal.leaves as f64).log2()) + 1e-12;
         if (alpha - nominal.alpha).abs() > ta {
             return fail("alpha-differs", rep);
         }
@@ -521,6 +576,14 @@ fn small_fns<B: AutodiffBackend>(rep: &mut Report, case: u64, g: &mut Sm64, beps
     let d = g.range(1, 8);
     let q = |v: f64| -> f64 { if beps > 1e-10 { (v as f32) as f64 } else { v } };
     let mut vecs: Vec<Vec<f64>> = (0..4).map(|_| (0..d).map(|_| q(g.normal())).collect()).collect();
+    // far from the origin relative to the span (only resolvable on the f64 backend)
+    if beps < 1e-10 && g.chance(0.3) {
+        let off = g.log_uniform(1e3, 1e10) * if g.bool() { 1.0 } else { -1.0 };
+        for k in 0..d {
+            vecs[0][k] += off;
+            vecs[1][k] += off;
+        }
+    }
     match g.below(5) {
         0 => vecs[1] = vecs[0].clone(),                                   // zero span
         1 => vecs[2] = vec![0.0; d],                                      // zero momentum
@@ -529,6 +592,10 @@ fn small_fns<B: AutodiffBackend>(rep: &mut Report, case: u64, g: &mut Sm64, beps
     }
     let diff: Vec<f64> = (0..d).map(|k| vecs[1][k] - vecs[0][k]).collect();
     let (dm, dp) = (refhmc::dot(&diff, &vecs[2]), refhmc::dot(&diff, &vecs[3]));
+    let far = vecs[0].iter().map(|v| v.abs()).fold(0.0, f64::max) > 100.0;
+    if far {
+        rep.count("stop_criterion_far_from_origin");
+    }
     let want = dm >= 0.0 && dp >= 0.0;
     rep.eval();
     let got = match guard(|| verif_stop_criterion::<B>(vt1::<B>(&vecs[0]), vt1::<B>(&vecs[1]), vt1::<B>(&vecs[2]), vt1::<B>(&vecs[3]))) {
@@ -580,7 +647,13 @@ where
         }
         2 => {
             let d = g.range(1, 8);
-            let t = DiagGauss::new((0..d).map(|_| g.log_uniform(0.1, 10.0)).collect(), (0..d).map(|_| g.uniform(-1.0, 1.0)).collect());
+            // sometimes centred far from the origin relative to its width (f64 backends can resolve that)
+            let off = if beps < 1e-10 && g.chance(0.4) { g.log_uniform(1e3, 1e9) } else { 0.0 };
+            let t = DiagGauss::new((0..d).map(|_| g.log_uniform(0.1, 10.0)).collect(), (0..d).map(|_| off + g.uniform(-1.0, 1.0)).collect());
+            if off != 0.0 {
+                far_trace_case::<T, B>(ctx, rep, case, g, t, bname, beps);
+                return;
+            }
             go!(t, 1.0)
         }
         3 | 4 => {
